@@ -1,5 +1,7 @@
 (* Property C18 — a failed storage operation can be retried and leaves no trace.
-   Only statements here; proofs are in Ledger/FaultProofs.v.  Model: Ledger/Fault.v.
+   Only statements here; proofs are in Ledger/FaultProofs.v (model: Ledger/Fault.v) and, for the
+   uniform fault theorem and its instances for every operation (second half of this file), in
+   Ledger/FaultGenProofs.v and Ledger/FaultOpsProofs.v (models: Ledger/FaultGen.v, Ledger/FaultOps.v).
    Every write operation of the wallet runs inside mwdb.Update: its batch is committed entirely
    or the store is unchanged (LevelDB batch atomicity, environment).  What remains to be shown is
    that the volatile state and the decisions taken on failed reads leave no trace either.  The
@@ -132,7 +134,8 @@ Print Assumptions C18_removal_double_fault_refuted.
 
 (*    and what is still open after the repair: a THIRD consecutive fault (the reload at the next
       attempt fails as well) ends the same way; a restart repairs it (C06: the queue is rebuilt
-      from the status records) *)
+      from the status records).  Now subsumed by C18_removal_any_faults / C18_removal_any_faults_refuted
+      below (any number of faults: exactly which sequences end this way) *)
 Theorem C18_removal_triple_fault_partial :
   remove_attempts true [(true, true); (true, true); (false, false)] r0 = ({| r_store := true; r_cache := false |}, true).
 Proof. reflexivity. Qed.
@@ -143,3 +146,390 @@ Example C18_indices_example :
   snd (attempts (fun w i => (100 * w + N.of_nat i)%N) false [FAfterCache; FNone; FBeforeCache; FAfterCache; FNone]
                 {| k_store := []; k_cache := [] |} 7%N) = [700; 701]%N.
 Proof. vm_compute. reflexivity. Qed.
+
+(* ==================================================================================================
+   The uniform fault theorem.
+
+   Ledger/FaultGen.v: an operation is a PROGRAM — the closure handed to mwdb.Update as a tree of
+   numbered database calls [Db] (each with the working copy of the store it acts on, what follows,
+   and what the code does when that call returns the injected error), in-memory updates inside
+   the closure [Mem] and reads of the in-memory state [Look] — together with the in-memory update
+   made after a successful commit [post] and the repair made after a failure [undo] (which may
+   itself read the store, and fail).  [attempt o f s m] runs the operation on store s and memory m
+   with fault f = [Fault k u]: database call number k of the attempt fails (0 = BeginTx, then the
+   calls of the closure, then Commit; a k beyond that strikes nothing), u: the repair's own read
+   fails too.  The store changes only through a Commit that succeeded (LevelDB batch atomicity,
+   environment).  [retry o fs s m]: the attempts with the faults fs, one after the other as long
+   as they fail, then an attempt without fault. *)
+Require Import MW.Ledger.FaultGen MW.Ledger.FaultGenProofs.
+Require MW.Ledger.Crash MW.Ledger.Pending.
+Require Import MW.Ledger.Import MW.Ledger.Remove MW.Ledger.FaultOps MW.Ledger.FaultOpsProofs.
+
+(* G1 = C18 for ANY operation of that shape.  [propagates]: every injected error is returned to
+   the caller (no failed call is taken for an answer); [undone ... f]: after an attempt with fault
+   f that fails, the in-memory state is what it was.  Then, for ANY store and memory:
+   (1) a fault at any call the attempt makes: the injected error is reported, store and memory are
+       exactly as before; (2) whatever the fault, the attempt is the attempt without fault or it
+       failed without a trace; (3) for ANY sequence of faults over repeated attempts, the first attempt
+       that does not fail ends in exactly the state, with exactly the result, of the attempt
+       without fault. *)
+Theorem C18_fault_generic : forall (St Vm X R E : Type) (efault : E) (o : oper St Vm X R E) (s : St) (m : Vm),
+  propagates efault (body o) ->
+  (forall f, undone efault o s m f ->
+     (forall k u, f = Fault k u -> (k < ncalls o s m)%nat -> attempt efault o f s m = (s, m, inl efault)) /\
+     (attempt efault o f s m = attempt efault o NoFault s m \/ exists e, attempt efault o f s m = (s, m, inl e))) /\
+  (forall fs, Forall (undone efault o s m) fs -> retry efault o fs s m = attempt efault o NoFault s m).
+Proof. exact fault_generic. Qed.
+Print Assumptions C18_fault_generic.
+
+(* G2 when is a failure undone, syntactically: (a) the closure contains no in-memory update (they all
+   come after the commit) and the repair leaves a good memory alone; (b) the updates the closure
+   can make keep an invariant from which the repair restores the memory *)
+Theorem C18_fault_undone_clean : forall (St Vm X R E : Type) (efault : E) (o : oper St Vm X R E) s m,
+  clean (body o) -> (forall u, undo o u s m = m) -> forall f, undone efault o s m f.
+Proof. exact undone_clean. Qed.
+Print Assumptions C18_fault_undone_clean.
+
+Theorem C18_fault_undone_inv : forall (St Vm X R E : Type) (efault : E)
+    (Q : (Vm -> Vm) -> Prop) (P : Vm -> Prop) (o : oper St Vm X R E) s m f,
+  writes Q (body o) -> (forall w m', Q w -> P m' -> P (w m')) -> P m ->
+  (forall m', P m' -> undo o (fundo f) s m' = m) -> undone efault o s m f.
+Proof. exact undone_inv. Qed.
+Print Assumptions C18_fault_undone_inv.
+
+(*    the usual case in one statement *)
+Theorem C18_fault_generic_clean : forall (St Vm X R E : Type) (efault : E) (o : oper St Vm X R E) s m,
+  propagates efault (body o) -> clean (body o) -> (forall u, undo o u s m = m) ->
+  (forall k u, (k < ncalls o s m)%nat -> attempt efault o (Fault k u) s m = (s, m, inl efault)) /\
+  (forall fs, retry efault o fs s m = attempt efault o NoFault s m).
+Proof. exact fault_generic_clean. Qed.
+Print Assumptions C18_fault_generic_clean.
+
+(* G3 histories: ANY sequence of environment steps and operations of any kinds, every operation
+   with any faults in any number of failed attempts, ends in the state of the same history
+   without any fault, given a state property [inv] that the fault-free steps keep and under which
+   the operations are of the above shape *)
+Theorem C18_fault_history_generic : forall (St Vm : Type) (inv : St -> Vm -> Prop) (h : list (hev St Vm)),
+  (forall e, In e h -> hev_ok inv e) ->
+  forall s m, inv s m -> hrun h s m = hrun (map strip h) s m.
+Proof. exact fault_history_generic. Qed.
+Print Assumptions C18_fault_history_generic.
+
+(* the two hypotheses are needed.  A closure that takes a failed call for an answer (ExistCreditFromTx
+   as found, refuted above on the ledger): the attempt reports success with the write missing *)
+Definition swallowing : oper nat unit unit unit unit :=
+  {| body := Db (fun t => inr (S t, tt)) (fun _ => Ret tt) (Ret tt); post := fun _ m => m; undo := fun _ _ m => m |}.
+Example C18_swallowed_error_not_generic :
+  attempt tt swallowing (Fault 1 false) 0%nat tt = (0%nat, tt, inr tt) /\
+  attempt tt swallowing NoFault 0%nat tt = (1%nat, tt, inr tt).
+Proof. split; reflexivity. Qed.
+(* an in-memory update inside the closure without repair (NewAddress as found): the failed Commit
+   leaves it behind *)
+Definition unrepaired : oper nat nat unit unit unit :=
+  {| body := Mem S (Write tt (fun t => inr (S t)) tt (Ret tt)); post := fun _ m => m; undo := fun _ _ m => m |}.
+Example C18_unrepaired_memory_not_generic :
+  attempt tt unrepaired (Fault 2 false) 0%nat 0%nat = (0%nat, 1%nat, inl tt) /\
+  propagates tt (body unrepaired) /\ ~ undone tt unrepaired 0%nat 0%nat (Fault 2 false).
+Proof.
+  split; [reflexivity|split].
+  - apply PMem. apply propagates_Write. apply PRet.
+  - intros H. specialize (H 0%nat 1%nat tt eq_refl). discriminate.
+Qed.
+
+(* -------------------------------------------------------------------------------------------------
+   The instances: Ledger/FaultOps.v writes every write operation of the models as such a program
+   (which calls, in which order, where the Go code updates memory — read off the source), and
+   FaultOpsProofs.v proves that each program run without fault IS the operation of the model.  Each
+   theorem: (1) a fault at ANY call of the attempt: the error is reported, store and memory are as
+   before; (2) after ANY sequence of faults the repeated operation does what the model's operation
+   without fault does. *)
+
+(* I1 block and reorganisation processing (any number of blocks disconnected and connected in the one
+   commit), store = ledger, memory = the handler's copy of the tip (Crash.process_best decides on it) *)
+Theorem C18_fault_retry_equiv_process : forall p own n b st best,
+  (forall k u, (k < ncalls (process_op p own n b) st best)%nat ->
+     attempt EOther (process_op p own n b) (Fault k u) st best = (st, best, inl EOther)) /\
+  (forall fs, retry EOther (process_op p own n b) fs st best =
+     match Crash.process_best p own n best st b with
+     | Ok st' => (st', (b_height b, b_id b), inr tt)
+     | Err e => (st, best, inl e)
+     end).
+Proof. exact process_fault_retry. Qed.
+Print Assumptions C18_fault_retry_equiv_process.
+
+(*    in terms of Model.process (the ledger of C01): *)
+Theorem C18_fault_retry_equiv_process_model : forall p own n b st fs,
+  fst (fst (retry EOther (process_op p own n b) fs st (tip st))) = process_or_keep p true own n st b.
+Proof. exact process_fault_retry_model. Qed.
+Print Assumptions C18_fault_retry_equiv_process_model.
+
+(* I2 the same with the pending set (C09's model): memory = mempool and expiredMempool, updated after
+   the commit *)
+Theorem C18_fault_retry_equiv_pending_process : forall p a3fix own n b hs,
+  (forall k u, (k < ncalls (pprocess_op p a3fix own n b) (Pending.h_store hs) (hs_mem hs))%nat ->
+     attempt qfault (pprocess_op p a3fix own n b) (Fault k u) (Pending.h_store hs) (hs_mem hs) =
+     (Pending.h_store hs, hs_mem hs, inl qfault)) /\
+  (forall fs,
+     let '(s', m', r) := retry qfault (pprocess_op p a3fix own n b) fs (Pending.h_store hs) (hs_mem hs) in
+     hs_mk s' m' = Pending.pprocess_or_keep p a3fix own n hs b /\
+     match r, Pending.pprocess p a3fix own n hs b with
+     | inr _, Pending.POk _ => True
+     | inl e, Pending.PErr e' => e = e'
+     | _, _ => False
+     end).
+Proof. exact pprocess_fault_retry. Qed.
+Print Assumptions C18_fault_retry_equiv_pending_process.
+
+(* I3 receiving a pending transaction *)
+Theorem C18_fault_retry_equiv_receive : forall p own n t hs,
+  (forall k u, (k < ncalls (receive_op p own n t) (Pending.h_store hs) (hs_mem hs))%nat ->
+     attempt qfault (receive_op p own n t) (Fault k u) (Pending.h_store hs) (hs_mem hs) =
+     (Pending.h_store hs, hs_mem hs, inl qfault)) /\
+  (forall fs,
+     let '(s', m', r) := retry qfault (receive_op p own n t) fs (Pending.h_store hs) (hs_mem hs) in
+     (hs_mk s' m', rres_of r) = Pending.receive_tx p own n hs t).
+Proof. exact receive_fault_retry. Qed.
+Print Assumptions C18_fault_retry_equiv_receive.
+
+(* I4 block and reorganisation processing on the multi-wallet store (C07/C08's model; code as found
+   or as repaired: a panic of the code as found is an error of its own here, not a fault) *)
+Theorem C18_fault_retry_equiv_xprocess : forall fx p n b st m,
+  (forall k u, (k < ncalls (xprocess_op fx p n b) st m)%nat ->
+     attempt XE (xprocess_op fx p n b) (Fault k u) st m = (st, m, inl XE)) /\
+  (forall fs, retry XE (xprocess_op fx p n b) fs st m = xres_out st m (xprocess fx p n st b)).
+Proof. exact xprocess_fault_retry. Qed.
+Print Assumptions C18_fault_retry_equiv_xprocess.
+
+(* I5 one batch of a background import (any batch size), one call per block of the batch *)
+Theorem C18_fault_retry_equiv_import_batch : forall fx p n B w st m, f_import_retry fx = true ->
+  (forall k u, (k < ncalls (import_op fx p n B w) st m)%nat ->
+     attempt IRetry (import_op fx p n B w) (Fault k u) st m = (st, m, inl IRetry)) /\
+  (forall fs,
+     let '(st', m', r) := retry IRetry (import_op fx p n B w) fs st m in
+     (st', iout_of r) = import_batch fx p B n st w /\ m' = m).
+Proof. exact import_fault_retry. Qed.
+Print Assumptions C18_fault_retry_equiv_import_batch.
+
+(* I6 CreateWallet (shs = []) / ImportWallet / ImportWalletWithMnemonic: the keystore enters the
+   in-memory table INSIDE the closure; RemoveCachedKeystore repairs (no database call in it, so every
+   fault is covered): no phantom wallet, and the repeated call creates the wallet *)
+Theorem C18_fault_retry_equiv_import_start : forall w pass shs st m, coherent st m ->
+  (forall k u, (k < ncalls (import_start_op w pass shs) st m)%nat ->
+     attempt tt (import_start_op w pass shs) (Fault k u) st m = (st, m, inl tt)) /\
+  (forall fs, retry tt (import_start_op w pass shs) fs st m =
+     match import_start st w pass shs with
+     | Some st' => (st', x_keys st', inr tt)
+     | None => (st, m, inl tt)
+     end).
+Proof. exact import_start_fault_retry. Qed.
+Print Assumptions C18_fault_retry_equiv_import_start.
+
+(* I7 NewAddress on the multi-wallet store: the address enters the table inside the closure; the repair
+   reloads the keystore from the store — as long as that reload does not fail itself (flag false) *)
+Theorem C18_fault_retry_equiv_new_address_gen : forall sh w st m, coherent st m ->
+  (forall k, (k < ncalls (new_address_op sh w) st m)%nat ->
+     attempt tt (new_address_op sh w) (Fault k false) st m = (st, m, inl tt)) /\
+  (forall fs, Forall (fun f => fundo f = false) fs ->
+     retry tt (new_address_op sh w) fs st m =
+     (Import.new_address st sh w, x_keys (Import.new_address st sh w), inr tt)).
+Proof. exact new_address_fault_retry. Qed.
+Print Assumptions C18_fault_retry_equiv_new_address_gen.
+
+(* I8 RemoveWallet (the request) *)
+Theorem C18_fault_retry_equiv_remove_request : forall w pass st m,
+  (forall k u, (k < ncalls (remove_request_op w pass) st m)%nat ->
+     attempt RErr (remove_request_op w pass) (Fault k u) st m = (st, m, inl RErr)) /\
+  (forall fs,
+     let '(st', m', r) := retry RErr (remove_request_op w pass) fs st m in
+     (st', rres_of_req r) = remove_request st w pass /\ m' = m).
+Proof. exact remove_request_fault_retry. Qed.
+Print Assumptions C18_fault_retry_equiv_remove_request.
+
+(* I9 removal, phase 1 *)
+Theorem C18_fault_retry_equiv_remove_phase1 : forall w st m,
+  (forall k u, (k < ncalls (phase1_op w) st m)%nat ->
+     attempt tt (phase1_op w) (Fault k u) st m = (st, m, inl tt)) /\
+  (forall fs, retry tt (phase1_op w) fs st m = (remove_phase1 st w, m, inr tt)).
+Proof. exact phase1_fault_retry. Qed.
+Print Assumptions C18_fault_retry_equiv_remove_phase1.
+
+(* I10 EVERY round of phase 2 of a removal, whatever the cap; in the last round DeleteKeystore drops the
+   keystore from the table inside the closure and the repair reloads it (flag false: that reload works) *)
+Theorem C18_fault_retry_equiv_remove_round : forall fx n cap lookup w st m, coherent st m ->
+  (forall k, (k < ncalls (round_op fx n cap lookup w) st m)%nat ->
+     attempt tt (round_op fx n cap lookup w) (Fault k false) st m = (st, m, inl tt)) /\
+  (forall fs, Forall (fun f => fundo f = false) fs ->
+     retry tt (round_op fx n cap lookup w) fs st m =
+     (fst (remove_round fx cap n lookup st w), x_keys (fst (remove_round fx cap n lookup st w)),
+      inr (snd (remove_round fx cap n lookup st w)))).
+Proof. exact round_fault_retry. Qed.
+Print Assumptions C18_fault_retry_equiv_remove_round.
+
+(* I11 whole histories of the multi-wallet layer (the event system of C07/C08: the node's chain moves,
+   announcements, wallets created / restored / removed, addresses issued, background batches and
+   rounds, restarts): EVERY operation of EVERY history may fail at ANY call ANY number of times in a
+   row; the run ends in the state of the run without faults and the in-memory table is the store's.
+   [reloads_work]: no fault of a NewAddress or of a removal round carries the flag "the repairing
+   reload fails as well" (see R1, R2 below for what happens then) *)
+Theorem C18_fault_history_wallets : forall fx p B cap, f_import_retry fx = true ->
+  forall n h, reloads_work h ->
+  xrun_f fx p B cap n h =
+  (xrun fx p B cap n (map fst h), x_keys (xs_st (xrun fx p B cap n (map fst h)))).
+Proof. exact xrun_faults. Qed.
+Print Assumptions C18_fault_history_wallets.
+
+(* -------------------------------------------------------------------------------------------------
+   Where the repair itself can fail. *)
+
+(* R1 the last round of a removal, ANY number of faults (Ledger/Fault.v: per attempt "the Commit
+   fails", "the reload fails").  The statement "any sequence of faults followed by working storage
+   completes the removal" is FALSE of the code as repaired; what holds is the exact condition: *)
+Theorem C18_removal_any_faults : forall fs cached,
+  remove_attempts true (fs ++ [(false, false)]) {| r_store := true; r_cache := cached |} =
+  if reloads_recover cached fs
+  then ({| r_store := false; r_cache := false |}, true)
+  else ({| r_store := true; r_cache := false |}, true).
+Proof. exact removal_any_faults. Qed.
+Print Assumptions C18_removal_any_faults.
+
+(*    it holds when no reload fails (any number of failing commits), and when no attempt whose
+      reload fails follows directly on an attempt that lost Commit and reload (any number of isolated
+      double faults) *)
+Theorem C18_removal_any_faults_no_reload_fault : forall fs,
+  Forall (fun cl => snd cl = false) fs ->
+  remove_attempts true (fs ++ [(false, false)]) r0 = ({| r_store := false; r_cache := false |}, true).
+Proof.
+  intros fs H. unfold r0. rewrite removal_any_faults, (reloads_recover_no_reload_fault fs true H). reflexivity.
+Qed.
+Print Assumptions C18_removal_any_faults_no_reload_fault.
+
+Theorem C18_removal_any_faults_spaced : forall fs, no_lost_reload fs = true ->
+  remove_attempts true (fs ++ [(false, false)]) r0 = ({| r_store := false; r_cache := false |}, true).
+Proof.
+  intros fs H. unfold r0. rewrite removal_any_faults, (proj1 (reloads_recover_spaced fs H)). reflexivity.
+Qed.
+Print Assumptions C18_removal_any_faults_spaced.
+
+(*    and it fails for every sequence that contains three consecutive storage failures of this form
+      (Commit, reload, and the reload at the next attempt), whatever follows: asyncRemove then finds no
+      cached keystore, its own reload fails, and it returns nil — the worker logs "asyncRemove finish"
+      and does not push the task again; the wallet stays flagged as removed with its keystore in the
+      store until the next restart (initTaskChan re-queues it, C06) *)
+Theorem C18_removal_any_faults_refuted : forall c fs,
+  remove_attempts true ((true, true) :: (c, true) :: fs) r0 = ({| r_store := true; r_cache := false |}, true).
+Proof. exact removal_any_faults_refuted. Qed.
+Print Assumptions C18_removal_any_faults_refuted.
+
+(*    the same on the model of the rounds (Ledger/Remove.v): Commit of the last round fails, then the reload *)
+Theorem C18_removal_round_reload_fault : forall fx n cap lookup w st m, coherent st m ->
+  snd (remove_round fx cap n lookup st w) = true ->
+  attempt tt (round_op fx n cap lookup w) (Fault (ncalls (round_op fx n cap lookup w) st m - 1) true) st m =
+  (st, drop_wallet w m, inl tt).
+Proof. exact round_reload_fault. Qed.
+Print Assumptions C18_removal_round_reload_fault.
+
+(* R2 NewAddress as repaired (f6a5978): a call of the closure or the Commit fails AND the reload that
+   repairs the table fails too (its BeginReadTx; the error of that View is dropped): the WHOLE keystore
+   is gone from the in-memory table although it is in the store.  Two consecutive storage failures;
+   replayed on the implementation (fault plan last0 with two consecutive failing calls for NewAddress):
+   Wallets() then answers "account not found", NewAddress repeated with working storage fails again
+   ("account not found"), and until the next restart filterTx does not recognise the wallet's
+   addresses, so blocks are committed without its payments and are never rescanned. *)
+Theorem C18_new_address_reload_fault : forall sh w st m k, coherent st m -> (1 <= k < 5)%nat ->
+  attempt tt (new_address_op sh w) (Fault k true) st m = (st, drop_wallet w (x_keys st), inl tt).
+Proof. exact new_address_reload_fault. Qed.
+Print Assumptions C18_new_address_reload_fault.
+
+(* -------------------------------------------------------------------------------------------------
+   Non-vacuity: concrete, non-trivial states and fault sequences. *)
+
+(* a reorganisation-shaped announcement: the wallet is at block 1, block 3 is announced; the one commit
+   reads the fork point, rolls back, connects blocks 2 and 3: six numbered calls (BeginTx, the walk,
+   the rollback, two blocks, Commit); a fault at each of them leaves ledger and tip as they were;
+   four failed attempts (at Commit, at block 2 with a failing repair read, at the walk, at BeginTx) and
+   then the announcement goes through: tip 3, block 2's spend and block 3's payment applied once *)
+Definition blk3 : block := {| b_id := 3; b_prev := 2; b_height := 3;
+  b_txs := [ {| t_id := 4; t_cb := true; t_ins := []; t_outs := [ {| o_sh := 9; o_val := 7; o_class := CStd |} ] |} ] |}.
+Definition n3 : node := [g0; blk1; blk2; blk3].
+
+Example C18_process_faults_example :
+  ncalls (process_op p0 own0 n3 blk3) st1 (tip st1) = 6%nat /\
+  Forall (fun k => attempt EOther (process_op p0 own0 n3 blk3) (Fault k true) st1 (tip st1) = (st1, tip st1, inl EOther))
+         (seq 0 6) /\
+  let r := retry EOther (process_op p0 own0 n3 blk3) [Fault 5 false; Fault 3 true; Fault 1 false; Fault 0 false] st1 (tip st1) in
+  snd r = inr tt /\ tip (fst (fst r)) = (3, 3%N) /\ snd (fst r) = (3, 3%N) /\ gross_balance (fst (fst r)) 1%N = 7 /\
+  fst (fst r) = process_or_keep p0 true own0 n3 st1 blk3.
+Proof.
+  split; [vm_compute; reflexivity|split].
+  - repeat constructor; vm_compute; reflexivity.
+  - vm_compute. repeat split; reflexivity.
+Qed.
+
+(* a history of the multi-wallet layer in which every operation fails first, some several times, at
+   the first call, in the middle, at the Commit, with or without a failing repair read: wallet 1
+   created, an address issued and paid, wallet 2 restored with one address and rescanned, wallet 1
+   removed (request, phase 1, a capped round and the last round) — the end state is that of the
+   history without faults: wallet 1 is gone from store and table, wallet 2 is ready with its coin *)
+Definition hist_f : list (xevent * list fault) :=
+  [ (XNewWallet 1 7, [Fault 2 true; Fault 0 false]);
+    (XNewAddr 9 1, [Fault 4 false; Fault 1 false]);
+    (XAttach blk1, []);
+    (XProcess blk1, [Fault 2 false]);
+    (XImportStart 2 8 [7%N], [Fault 4 true]);
+    (XBatch 2, [Fault 1 true; Fault 3 false]);
+    (XAttach blk2, []);
+    (XProcess blk2, [Fault 3 true]);
+    (XRemoveReq 1 7, [Fault 1 true]);
+    (XPhase1 1, [Fault 4 true; Fault 5 false]);
+    (XRound 1, [Fault 3 false]);
+    (XRound 1, [Fault 6 false; Fault 2 false]) ].
+
+Example C18_history_faults_example :
+  reloads_work hist_f /\
+  let r := xrun_f repaired p0 1000 1 [g0] hist_f in
+  r = (xrun repaired p0 1000 1 [g0] (map fst hist_f), x_keys (xs_st (xrun repaired p0 1000 1 [g0] (map fst hist_f)))) /\
+  snd r = [(7, 2)]%N /\ status_of (xs_st (fst r)) 1 = None /\ status_of (xs_st (fst r)) 2 = Some WReady /\
+  gross_balance (x_w (xs_st (fst r))) 2%N = 5 /\ fst (tip (x_w (xs_st (fst r)))) = 2.
+Proof.
+  split.
+  - unfold reloads_work, hist_f. repeat constructor.
+  - vm_compute. repeat split; reflexivity.
+Qed.
+
+(* every call of CreateWallet / ImportWallet can be the failing one: five numbered calls *)
+Example C18_import_start_faults_example :
+  let st := xinit [g0] in
+  coherent st (x_keys st) /\ ncalls (import_start_op 2 8 [7%N; 6%N]) st (x_keys st) = 5%nat /\
+  Forall (fun k => attempt tt (import_start_op 2 8 [7%N; 6%N]) (Fault k true) st (x_keys st) = (st, x_keys st, inl tt)) (seq 0 5) /\
+  snd (fst (retry tt (import_start_op 2 8 [7%N; 6%N]) [Fault 4 true; Fault 2 false] st (x_keys st))) = [(7, 2); (6, 2)]%N.
+Proof.
+  cbv zeta. split; [reflexivity|split; [vm_compute; reflexivity|split]].
+  - repeat constructor; vm_compute; reflexivity.
+  - vm_compute. reflexivity.
+Qed.
+
+(* R1: sequences of any length of which the characterisation decides: three failing commits with
+   working reloads and two isolated double faults complete; one lost reload after a double fault does not *)
+Example C18_removal_many_faults_example :
+  remove_attempts true ([(true, false); (true, true); (true, false); (true, false); (true, true); (false, false)] ++ [(false, false)]) r0
+    = ({| r_store := false; r_cache := false |}, true) /\
+  no_lost_reload [(true, false); (true, true); (true, false); (true, false); (true, true); (false, false)] = true /\
+  remove_attempts true ([(true, false); (true, true); (false, true); (true, false)] ++ [(false, false)]) r0
+    = ({| r_store := true; r_cache := false |}, true) /\
+  reloads_recover true [(true, false); (true, true); (false, true); (true, false)] = false.
+Proof. repeat split; reflexivity. Qed.
+
+(* R2 on a concrete wallet: wallet 1 has address 9; NewAddress (address 10) fails at the Commit and the
+   reload fails: the store is unchanged, the call reports the failure, but the table no longer knows
+   address 9 — block 1, which pays 5 to address 9, is then accepted with nothing credited, where the
+   coherent table credits 5 *)
+Theorem C18_new_address_reload_fault_refuted :
+  let st := xs_st (xrun repaired p0 1000 1 [g0] [XNewWallet 1 7; XNewAddr 9 1]) in
+  let '(st', m', r) := attempt tt (new_address_op 10 1) (Fault 4 true) st (x_keys st) in
+  coherent st (x_keys st) /\ st' = st /\ r = inl tt /\
+  own_of (x_keys st) 9%N = Some 1%N /\ own_of m' 9%N = None /\
+  gross_balance (process_or_keep p0 true (own_of (x_keys st)) [g0; blk1] (init_state 0) blk1) 1%N = 5 /\
+  gross_balance (process_or_keep p0 true (own_of m') [g0; blk1] (init_state 0) blk1) 1%N = 0 /\
+  fst (tip (process_or_keep p0 true (own_of m') [g0; blk1] (init_state 0) blk1)) = 1.
+Proof. vm_compute. repeat split; reflexivity. Qed.
+Print Assumptions C18_new_address_reload_fault_refuted.
